@@ -19,6 +19,7 @@ sys.exc_info() after the statement and after the call.  Oracle: CPython on the i
 """
 import re
 from vlib import e2, farm
+from props._g6_common import ConfirmCtx
 
 LEVEL = 'exploration'
 ENGINE = 'E2 diffexplore'
@@ -228,7 +229,9 @@ def _keyfn(tg, inp, exp, got):
     call state | divergence class.  The role replaces the whole program so that one root cause gives few keys."""
     cls = e2.divclass(exp, got)
     if got[0] == 'crash' or exp is None:
-        return 'C22|crash|%s|mode%s' % (re.sub(r'R[ABCFNG]', 'raise', tg), inp[0])
+        # a crash cannot be located: keyed by the set of control-flow actions of the statement (raise kinds merged)
+        acts = sorted(set(re.sub(r'R[ABCFNG]', 'raise', a) for a in re.findall(r'RET|BRK|CNT|RR|R[ABCFNG]|H', tg)))
+        return 'C22|crash|%s' % '+'.join(acts)
     roles = _ROLES.get(tg, {})
     le, lg = exp[-1], got[-1]
     n = 0
@@ -265,7 +268,8 @@ def run(ctx):
             srcs.append(src)
             parts.append(e2.Part(src, [e2.Func('t_' + name, tag(t), 'm')]))
         mods.append(e2.Mod('c22_%d' % (i // PER_MODULE), PRELUDE, parts, inputs, ext='.py', use_log=True))
-    st = e2.run_diff(ctx, mods, keyfn=_keyfn, reach=REACH)
+    cc = ConfirmCtx(ctx, _keyfn)
+    st = e2.run_diff(cc, mods, keyfn=_keyfn, reach=REACH)
     behaviours, raised, returned = _reference_behaviours(srcs)
     cov = {
         'evaluations': st['evaluations'], 'distinct_nontrivial': behaviours,
@@ -276,6 +280,7 @@ def run(ctx):
         'programs': len(fam), 'compiled_functions': st['programs'], 'modules_built': st['modules_built'],
         'call_states': ['clean', 'inside handler of KeyError("outer")'],
         'mismatches': st['mismatches'], 'crashes': st['crashes'], 'build_failures': st['build_failures'],
+        'crashes_not_reproduced_on_replay': cc.unreproduced,
         'reach': st.get('reach'), 'reach_gaps': st.get('reach_gaps'),
         'samples': [{'tag': tag(fam[i]), 'function': srcs[i]} for i in (len(fam) // 9, len(fam) // 2, len(fam) - 7)],
         'exhaustive': True,
